@@ -293,12 +293,14 @@ def run_grammar(spec, prop, R, tier, batch, stats):
                 except Exception:
                     pass
             depths = [mind - 1, mind, mind + 1, mind + 2, mind + 4] if quick else \
-                [mind - 1, mind, mind + 1, mind + 2, mind + 3, mind + 4, mind + 6]
+                [mind - 1, mind, mind + 1, mind + 2, mind + 3, mind + 4]
             for d in depths:
                 if d < 0:
                     continue
-                workload(ctx, R, d, ["grow", "full", "pigrow"], ["tree", "ge", "sge", "dsge"], 2 if quick else 4,
-                         2 if quick else 6)
+                # (programs grow exponentially with the limit; the deeper limits get fewer repetitions)
+                deep = d > mind + 2
+                workload(ctx, R, d, ["grow", "full", "pigrow"], ["tree", "ge", "sge", "dsge"],
+                         2 if (quick or deep) else 4, 2 if (quick or deep) else 5)
         elif prop == "C10":
             for d in [mind - 1, mind, mind + 2]:
                 if d >= 0:
